@@ -347,10 +347,10 @@ type Sim struct {
 	CrashAt        int
 	CrashPos       int
 	CommitFailures int
-	routerFails map[string]int
-	Problems []string // harness-level disagreements (primary vs shadow store)
-	BgRuns   map[string]int
-	MaxSched int // maximum number of in-flight submissions seen
+	routerFails    map[string]int
+	Problems       []string // harness-level disagreements (primary vs shadow store)
+	BgRuns         map[string]int
+	MaxSched       int // maximum number of in-flight submissions seen
 }
 
 type Restart struct {
